@@ -253,8 +253,15 @@ class Prov:
         if isinstance(target, ast.Name):
             return base
         if isinstance(target, (ast.Tuple, ast.List)):
+            star = next((k for k, e in enumerate(target.elts) if isinstance(e, ast.Starred)), None)
             for i, e in enumerate(target.elts):
                 if name in C.target_names(e):
+                    if isinstance(e, ast.Starred):
+                        # head, *rest = xs: `rest` is the slice xs[i:] (xs[i:-k] when k names follow)
+                        after = len(target.elts) - i - 1
+                        return self._unpack(e.value, name, self._ext(base, f"slice:{i}:" + (f"-{after}" if after else "")))
+                    if star is not None and i > star:
+                        return self._unpack(e, name, self._ext(base, f"item:{i - len(target.elts)}"))
                     return self._unpack(e, name, self._ext(base, f"unpack:{i}"))
         if isinstance(target, ast.Starred):
             return self._unpack(target.value, name, base)
